@@ -74,11 +74,65 @@ structure Rel (c : Cfg) (x : CSess) (h : HState) (free : List Seg) : Prop where
   abs : x.st.abs free = h.a
   cinv : CInv c x.st free h.lives
   hinv : HInv c h
+  nonnull : ∀ m ∈ x.held, m.memSize ≠ 0
+
+
+theorem sim_filter_len {α : Type} (p : α → Bool) (l : List α) :
+    (l.filter p).length + (l.filter (fun e => ! p e)).length = l.length := by
+  induction l with
+  | nil => rfl
+  | cons x xs ih =>
+    simp only [List.filter_cons]
+    cases p x <;> simp <;> omega
+
+theorem sim_ext_count (n : Nat) : ∀ (l : List Ext), l.length = n → l.Pairwise disj → ∀ lo B : Nat,
+    lo ≤ B → (∀ e ∈ l, lo ≤ e.1 ∧ e.1 + 9 ≤ e.2 ∧ e.2 ≤ B) → l.length * 9 + lo ≤ B := by
+  induction n using Nat.strongRecOn with
+  | _ n ih =>
+    intro l hl hp lo B hlo hb
+    cases l with
+    | nil => simpa using hlo
+    | cons g rest =>
+      rw [List.pairwise_cons] at hp
+      obtain ⟨hg, hrest⟩ := hp
+      have hgb := hb g (List.mem_cons_self ..)
+      have hlen : (rest.filter (fun e => decide (e.2 ≤ g.1))).length +
+          (rest.filter (fun e => ! decide (e.2 ≤ g.1))).length = rest.length :=
+        sim_filter_len _ rest
+      simp only [List.length_cons] at hl
+      have h1 := ih _ (by have := List.length_filter_le (fun e : Ext => decide (e.2 ≤ g.1)) rest; omega)
+        (rest.filter (fun e => decide (e.2 ≤ g.1))) rfl (hrest.sublist List.filter_sublist) lo g.1 (by omega)
+        (by
+          intro e he
+          simp only [List.mem_filter, decide_eq_true_eq] at he
+          have := hb e (List.mem_cons_of_mem _ he.1)
+          omega)
+      have h2 := ih _ (by have := List.length_filter_le (fun e : Ext => ! decide (e.2 ≤ g.1)) rest; omega)
+        (rest.filter (fun e => ! decide (e.2 ≤ g.1))) rfl (hrest.sublist List.filter_sublist) g.2 B (by omega)
+        (by
+          intro e he
+          simp only [List.mem_filter, Bool.not_eq_true', decide_eq_false_iff_not] at he
+          have := hb e (List.mem_cons_of_mem _ he.1)
+          have hd := hg e he.1
+          unfold disj at hd
+          omega)
+      simp only [List.length_cons]
+      omega
 
 /-- a well-formed abstract state has few segments: they are pairwise disjoint, each at least 9 bytes long,
     all below the cursor -/
 theorem wf_free_length (c : Cfg) (a : A) (lives : List Ext) (h : WF c a lives) : a.free.length * 9 ≤ a.allocated := by
-  sorry
+  have hd := h.disjoint
+  rw [List.pairwise_append] at hd
+  have := sim_ext_count _ (a.free.map Seg.ext) rfl hd.1 0 a.allocated (by omega) (by
+    intro e he
+    obtain ⟨g, hg, rfl⟩ := List.mem_map.1 he
+    have := h.segs g hg
+    unfold SegOK at this
+    simp only [Seg.ext, Seg.hi, Seg.lo, NODE] at *
+    omega)
+  simp only [List.length_map] at this; omega
+
 
 def HState.stepOpt (c : Cfg) (h : HState) : Option HOp → HState
   | none => h
